@@ -47,6 +47,39 @@ def outer_shallow(override):
     return [probe_shallow("d"), with_default_shallow.update_context({"k": override})(1)]
 
 
+@task(version="1")
+def show(v):
+    return repr(v)
+
+
+@task(version="1")
+def ctx_reader(tag):
+    CALLS.append(("ctx_reader", tag))
+    return show(get_context("k", "none"))
+
+
+@task(version="1")
+def ctx_mid(tag):
+    """does not read the context itself: only its child does"""
+    return ctx_reader(tag)
+
+
+@task(version="1", check_valid="shallow")
+def ctx_mid_shallow(tag):
+    return ctx_reader(tag)
+
+
+@task(version="1")
+def two_contexts(c1, c2, shallow):
+    t = ctx_mid_shallow if shallow else ctx_mid
+    return [t.update_context({"k": c1})("a"), t.update_context({"k": c2})("a")]
+
+
+# pairs of context values that are different values but equal under some lossy rendering
+LOOKALIKE = [({1: 10}, {"1": 10}), ((2, 3), [2, 3]), (1, True), (1, 1.0), ("1", 1), ({"a": (1,)}, {"a": [1]}),
+             (None, "None"), ([], ())]
+
+
 def program(shape, override):
     return {"direct-first": outer_direct_first, "override-first": outer_override_first, "shallow": outer_shallow}[shape](override)
 
